@@ -263,6 +263,8 @@ func scenario(h history, bound int) vexplore.Scenario {
 				blocksAtStop       = -1
 				blocksAtCall       = -1
 				posAtCall          = -1
+				readsAtCloseReturn = -1 // Read calls made when the first Close call returned
+				lateReads          = 0  // Read calls by a thread other than the consumer's after that
 				posAtStop          = -1
 				post               []postResult
 				finalCloseReturned bool
@@ -397,6 +399,16 @@ func scenario(h history, bound int) vexplore.Scenario {
 				if rd.Gate != nil {
 					rd.Gate.Close() // the stalled Read returns now
 				}
+				closeReturned := func() {
+					if readsAtCloseReturn < 0 {
+						readsAtCloseReturn = rd.Reads
+						rd.OnRead = func(*pbfscen.Reader) {
+							if vsched.ThreadID() != 0 {
+								lateReads++
+							}
+						}
+					}
+				}
 				phase = "stopping"
 				stopIssued = true
 				if h.Stop != stopCancelOther {
@@ -405,13 +417,16 @@ func scenario(h history, bound int) vexplore.Scenario {
 				switch h.Stop {
 				case stopClose, stopCloseVsCancel:
 					stopCloseErr = s.Close()
+					closeReturned()
 				case stopCancel:
 					cancel()
 				case stopCancelThenClose:
 					cancel()
 					stopCloseErr = s.Close()
+					closeReturned()
 				case stopCloseThenCancel:
 					stopCloseErr = s.Close()
+					closeReturned()
 					cancel()
 				}
 				lenBAtStop = len(gotB)
@@ -424,6 +439,7 @@ func scenario(h history, bound int) vexplore.Scenario {
 						post = append(post, postResult{op: 'E', err: s.Err(), cancelStarted: cancelStarted})
 					case 'C':
 						post = append(post, postResult{op: 'C', err: s.Close()})
+						closeReturned()
 					case 'H':
 						if ps != nil {
 							_, err := ps.Header()
@@ -443,6 +459,7 @@ func scenario(h history, bound int) vexplore.Scenario {
 				startedAtEnd = cancelStarted
 				if h.FinalClose {
 					s.Close()
+					closeReturned()
 				}
 				finalCloseReturned = true
 				phase = "done"
@@ -638,6 +655,14 @@ func scenario(h history, bound int) vexplore.Scenario {
 					}
 				}
 				// promptness, in blocks / reads
+				// Close is the join point: once it has returned the scanner does not touch
+				// the input any more (the caller may close or rewind the reader)
+				// (a Scan or Header call made AFTER Close on a scanner that was never started
+				// reads the header block on the consumer's own goroutine before it notices:
+				// not judged, the text speaks of the Close call and of Scan returning false)
+				if lateReads > 0 {
+					add("read-after-close-returned", fmt.Sprintf("%d Read calls on the input by the scanner's goroutines after Close had returned (%d reads before)", lateReads, readsAtCloseReturn))
+				}
 				if h.Format == "pbf" && blocksAtStop >= 0 && unreadAtStop >= 4 {
 					if begun := rd.BlocksBegun - blocksAtStop; begun > 2 {
 						add("reads-on-after-stop", fmt.Sprintf("%d file blocks were still unread when the scan was stopped; the reader began %d more blocks afterwards (at most 2 allowed), %d of %d bytes consumed at the end", unreadAtStop, begun, rd.Pos, len(rd.Data)))
